@@ -182,6 +182,14 @@ of_status_t	of_ldpc_staircase_set_fec_parameters (of_ldpc_staircase_cb_t*	ofcb,
 			params->N1))
 		goto error;
 	}
+	if (params->prng_seed < 1 || params->prng_seed > 0x7FFFFFFE)
+	{
+		/* RFC 5170: the PRNG seed is in 1..2^31-2; any other value would leave the PRNG in the
+		 * state left by the previous session, i.e. build an unpredictable matrix. */
+		OF_PRINT_ERROR(("of_ldpc_staircase_set_fec_parameters: invalid PRNG seed (%d), must be in 1..2^31-2.\n",
+			params->prng_seed))
+		goto error;
+	}
 	if ((ofcb->nb_source_symbols = params->nb_source_symbols) > ofcb->max_nb_source_symbols)
 	{
 		OF_PRINT_ERROR(("of_ldpc_staircase_set_fec_parameters: ERROR, invalid nb_source_symbols parameter (got %d, maximum is %d)\n",
